@@ -58,8 +58,10 @@ def gen_domain(rng, n_actions=4, with_forall=True, with_numeric=True, noise=Fals
     return gen_core.domain_tree(acts, types=types), acts
 
 
-def gen_problem_tree(rng, objs, name="hp"):
+def gen_problem_tree(rng, objs, name="hp", sparse=False):
     st = gen_core.random_state(rng, objs, density=rng.choice([0.3, 0.5]))
+    if sparse:      # some fluents are not given a value at all (what reads them is open, repeating a call is not)
+        st["fl"] = [f for f in st["fl"] if rng.random() < 0.6]
     items = [L(S(p), *[S(x) for x in a]) for p, a in st["facts"]] + \
             [L(S("="), L(S(f), *[S(x) for x in a]), {"t": "n", "v": v}) for f, a, v in st["fl"]]
     return L(S("define"), L(S("problem"), S(name)), L(S(":domain"), S("dom")), L(S(":objects"), *typed(objs)),
@@ -68,11 +70,12 @@ def gen_problem_tree(rng, objs, name="hp"):
 
 def gen_case(seed, cid, n_ops=14, **kw):
     rng = random.Random(seed * 7919 + cid)
+    sparse_init = kw.pop("sparse_init", False)
     dom, acts = gen_domain(rng, n_actions=rng.choice([3, 4, 5]) if not kw.get("noise") else 2, **kw)
     objs = list(gen_core.OBJS) if rng.random() < 0.7 else gen_core.OBJS[:3]
     # a second problem of the same domain over another object set (one exporter serves both)
     objs2 = [o for o in objs if o[0] != "o2"] + [["o5", "t2"], ["o6", "t1"]]
-    prob = gen_problem_tree(rng, objs)
+    prob = gen_problem_tree(rng, objs, sparse=bool(sparse_init) and rng.random() < 0.4)
     return {"id": cid, "dom": dom, "prob": prob, "objs": objs, "prob2": gen_problem_tree(rng, objs2, name="hp2"), "objs2": objs2,
             "acts": [[n, p] for n, p, _, _ in acts], "seed": rng.randrange(1 << 30), "n_ops": n_ops,
             "layout": rng.randrange(1 << 30) if rng.random() < 0.3 else None}
